@@ -10,8 +10,10 @@ import (
 	"io"
 	"math/rand/v2"
 	"net"
+	"os"
 	"reflect"
 	"strings"
+	"time"
 
 	"github.com/gotd/td/bin"
 	"github.com/gotd/td/mtproxy"
@@ -24,6 +26,8 @@ import (
 )
 
 const frameLimit = 1 << 24 // proto/codec maxMessageSize
+
+var debugTiming = os.Getenv("VERIF_DEBUG") != ""
 
 type protoSpec struct {
 	name     string
@@ -228,6 +232,14 @@ func (m *c16) runSeq(sc seqCase) {
 	c := m.c
 	c.Eval(1)
 	c.Add("sequences/"+sc.arm, 1)
+	if debugTiming {
+		t0 := time.Now()
+		defer func() {
+			if d := time.Since(t0); d > 200*time.Millisecond {
+				fmt.Fprintf(os.Stderr, "slow seq %s %s/%s %s frames=%d first=%d: %v\n", sc.arm, sc.ps.name, wrapName[sc.wrap], schedName[sc.kind], len(sc.payloads), len(sc.payloads[0]), d)
+			}
+		}()
+	}
 	rs := c.RandN("c16/seq/"+sc.arm, sc.seed)
 	s := newSched(sc.kind, sc.eofc, rs)
 	wrap := wrapName[sc.wrap]
